@@ -85,6 +85,18 @@ def compare_values(t, exp_vals, got, where, raw_ts=False):
                 return ['%s: raw timestamps not readable as (seconds, second_fractions): %r' % (where, e)]
             if gp != pairs:
                 return ['%s: raw timestamps differ: got %r expected %r' % (where, gp[:4], pairs[:4])]
+            # single items of the array and of arrays derived from it (slice, copy) are TdmsTimestamp objects
+            try:
+                if len(pairs) and hasattr(got, 'dtype') and got.dtype.names:
+                    for label, arr, idx in (('[0]', got, 0), ('[:][-1]', got[:], len(pairs) - 1),
+                                            ('.copy()[0]', got.copy(), 0), ('[::-1][0]', got[::-1], len(pairs) - 1)):
+                        item = arr[0] if label in ('[0]', '.copy()[0]', '[::-1][0]') else arr[-1]
+                        want = pairs[idx]
+                        if (getattr(item, 'seconds', None), getattr(item, 'second_fractions', None)) != want:
+                            return ['%s: item %s of the raw timestamp array is %r, expected TdmsTimestamp%r' % (
+                                where, label, item, want)]
+            except Exception as e:      # noqa
+                return ['%s: item access on raw timestamp array failed: %r' % (where, e)]
             return []
         if len(got) != len(pairs):
             return ['%s: %d timestamps, expected %d' % (where, len(got), len(pairs))]
